@@ -7,8 +7,9 @@ Model of `Computable` / `Computed` (mesa_signal.py) on top of the Signals regist
 * a Computed's function is a *read tree*: what it returns depends only on what it reads, in
   the order it reads it; `write` nodes are the assignments a function may perform (cycle detection);
 * `Computed.__call__`, `Computable.__get__`, `Observable.__set__`, `_set_dirty`, `_add_parent`,
-  `_remove_parents` follow the repaired code (G4, G8, G9, G10, G11, G12 repaired; G7 open: `Observable.__set__`
-  notifies before it stores, and a user handler may read Computables while being notified);
+  `_remove_parents` follow the repaired code (G4, G7, G8, G9, G10, G11, G12 repaired; G7: `Observable.__set__`
+  stores before it notifies, and a notification reaches the dependent Computeds before the user handlers, which may
+  read Computables while being notified);
 * `proc` = `PROCESSING_SIGNALS` (what the evaluating functions have read) grows over one outermost evaluation,
   nested ones included, and is cleared when `depth` = `EVALUATION_DEPTH` returns to 0 (G10 repaired: no
   assignment clears it);
@@ -216,24 +217,37 @@ def notifyLoop (rec : Rec) (k : Key) (old new : V) : List Sub → St → Option 
         | some (s1, .err e) => some (s1, .error e)
         | some (s1, .ok _) => notifyLoop rec k old new xs s1
 
-/-- `HasObservables.notify` + `_mesa_notify` for the `change` signal of key `k`: afterwards the dead references are
-    dropped from the list as it is then -/
+/-- the observer is the `_set_dirty` of a Computed (a dependent), not a user handler -/
+def Sub.isDep : Sub → Bool
+  | .dirty _ => true
+  | .user _ => false
+
+/-- `HasObservables.notify` + `_mesa_notify` for the `change` signal of key `k` (G7 repaired): first the dependents
+    (the `_set_dirty` of the Computeds subscribed), then the user handlers, each group in subscription order — every
+    Computable that depends on `k` is dirty before a handler can read it; afterwards the dead references are dropped
+    from the list as it is then -/
 def notifyT (rec : Rec) (k : Key) (old new : V) (s : St) : Option (St × R) :=
-  match notifyLoop rec k old new ((s.regs k.1).subs k.2 .change) s with
+  let snap := (s.regs k.1).subs k.2 .change
+  match notifyLoop rec k old new (snap.filter Sub.isDep) s with
   | none => none
   | some (s1, .error e) => some (s1, .err e)
   | some (s1, .ok _) =>
-    some (s1.setReg k.1 ((s1.regs k.1).setSubs k.2 .change (((s1.regs k.1).subs k.2 .change).filter s1.alive)), .ok none)
+    match notifyLoop rec k old new (snap.filter fun x => !x.isDep) s1 with
+    | none => none
+    | some (s2, .error e) => some (s2, .err e)
+    | some (s2, .ok _) =>
+      some (s2.setReg k.1 ((s2.regs k.1).setSubs k.2 .change (((s2.regs k.1).subs k.2 .change).filter s2.alive)),
+        .ok none)
 
-/-- `Observable.__set__`: cycle check, notify, store (G10 repaired: PROCESSING_SIGNALS is left alone) -/
+/-- `Observable.__set__`: cycle check, **store, then notify** (G7 repaired: whoever reads while being notified sees
+    the new value; G10 repaired: PROCESSING_SIGNALS is left alone) -/
 def assignT (rec : Rec) (k : Key) (v : V) (s : St) : Option (St × R) :=
   if s.cur.isSome ∧ s.proc.contains k then some (s, .err .value)
   else
-    match rec (.notify k (s.store k) v) s with
+    match rec (.notify k (s.store k) v) { s with store := fun k' => if k' = k then v else s.store k' } with
     | none => none
     | some (s1, .err e) => some (s1, .err e)
-    | some (s1, .ok _) =>
-      some ({ s1 with store := fun k' => if k' = k then v else s1.store k' }, .ok none)
+    | some (s1, .ok _) => some (s1, .ok none)
 
 /-- the `finally` of an evaluation: restore `CURRENT_COMPUTED`, one function body less is running; when the
     outermost one is over, what it read is forgotten -/
